@@ -497,11 +497,13 @@ def _comprehension_symbolic(I, e, g, st, itv, ctx, kind):
                                 nxt.append(u)
             live = nxt
         exprs = [e.key, e.value] if kind == "dict" else [e.elt]
+        produced = []
         for z in live:
             for (w, vv) in I.eval_list(exprs, z, ctx):
                 if isinstance(vv, Raise):
                     raising.append((w, vv))
                 else:
+                    produced.append((w, vv))
                     _check_no_heap_write(w, heap_before)
                     for kf in w.ghost:
                         if isinstance(kf, str) and kf.startswith("F_") and kf in ghost_before \
@@ -511,6 +513,14 @@ def _comprehension_symbolic(I, e, g, st, itv, ctx, kind):
     if kind in ("list", "gen"):
         cseq = U.fresh_seq("comp")
         r = I.alloc_list(st, cseq)
+        # pure map `[f(x) for x in S]` (one path, no filter, no raise): remember the element function,
+        # so that consumers (dict-from-pairs) can reason about the result element-wise
+        if skind == "seq" and not g.ifs and not raising and live is not None and len(produced) == 1 \
+                and kind in ("list", "gen") and len(produced[0][0].pc) == len(st.pc) + 1:
+            try:
+                st.heap[r.oid].fields["$map"] = (seq, x, I.term(produced[0][1][0]))
+            except Exception:
+                pass
         # filter comprehension `[x for x in xs if cond(x)]`: every element of the result satisfies
         # cond (the disjunction of the passing paths of the probe, with the probe element replaced)
         if isinstance(e.elt, ast.Name) and isinstance(g.target, ast.Name) and e.elt.id == g.target.id \
@@ -528,7 +538,18 @@ def _comprehension_symbolic(I, e, g, st, itv, ctx, kind):
                 st.pc.append(f.sfn(cseq))
         out.append((st, r))
     elif kind == "dict":
-        r = I.alloc_dict(st, keys=U.fresh_seq("compkeys"), vals=z3.Const("compvals!%d" % I.new_oid(), z3.ArraySort(V, V)))
+        r = None
+        if skind == "seq" and not g.ifs and not raising and live is not None and len(produced) == 1 \
+                and len(produced[0][0].pc) == len(st.pc) + 1:
+            # `{key(x): val(x) for x in S}`: the last element producing a key wins (objects.lastwins_dict)
+            try:
+                kt_, vt_ = I.term(produced[0][1][0]), I.term(produced[0][1][1])
+                r = I.alloc_dict(st, keys=U.fresh_seq("lw_keys"), vals=z3.Const("lw_vals!%d" % I.new_oid(), z3.ArraySort(V, V)))
+                st.heap[r.oid].fields["$lastwins"] = (seq, x, kt_, vt_)
+            except Exception:
+                r = None
+        if r is None:
+            r = I.alloc_dict(st, keys=U.fresh_seq("compkeys"), vals=z3.Const("compvals!%d" % I.new_oid(), z3.ArraySort(V, V)))
         out.append((st, r))
     else:
         raise OutOfReach("set comprehension over symbolic iterable")
